@@ -23,6 +23,7 @@ def tasks(tier):
         ("t_dispatch", {"n_grains": 2}),
         ("t_crss", {}),
         ("t_failed_update", {"n_grains": n}),
+        ("t_zero_mobility", {"regime": "matrix_dislocation", "n_grains": n}), ("t_zero_mobility", {"regime": "frictional_yielding", "n_grains": n}),
     ]
     for ph, fb in kernel.FABRICS if tier == "thorough" else [kernel.FABRICS[0], kernel.FABRICS[2], kernel.FABRICS[5]]:
         for regime in ("matrix_dislocation", "frictional_yielding"):
@@ -74,6 +75,14 @@ def t_null_regimes(sess, n_grains):
                 "cls": {"kind": "null regime returns non-zero volume rate", "regime": regime.name},
             })
         sample(sess, obligation="null regime", regime=regime.name, dA000=str(np.asarray(dA, dtype=object)[0, 0, 0]))
+
+
+def t_zero_mobility(sess, regime, n_grains):
+    """Zero boundary mobility: volume rates vanish for every flow (real derivatives, kernel stubbed) -- the
+    aggregate obligations of C03 include 'M* = 0 => f' = 0' and linearity in M*."""
+    from . import C03
+
+    C03.t_aggregate(sess, regime, n_grains)
 
 
 def replay_null_regime(case):
